@@ -1,18 +1,28 @@
 import Flowjaxv.Driver.Tree
 import Flowjaxv.Model.Arr
+import Flowjaxv.Model.ArrGenBij
 /-!
-Driver op for expression trees of ARRAY bijections (C08):
+Driver ops for expression trees of ARRAY bijections (C08):
 
-  atree <m> <cond> <shape> <data> <expr…>      → `<data> [<logdet>]`
+  atree  <m> <cond> <shape> <data> <expr…>   → `<shape> <data> <logdet|-> <declared shape> <declared cond: 0|1>`
+      Concatenate / Stack / Partial / Reshape / EmbedCondition are the definitions GENERATED from the source
+      (`Gen/ArrCombinators.lean`), built through the generated constructors (`Concatenate.init`, `Stack.init`,
+      `Reshape.init`, `EmbedCondition.init`); the constructor calls are cross-checked against the C13 constructor
+      models (`ERR ctor …` on disagreement or rejection).
+  atreeh <m> <cond> <shape> <data> <expr…>   → `<shape> <data> [<logdet>]`
+      the same trees through the HAND model (`Model/Arr.lean`).
+  jnpprim <prim> …                           → the primitive specs of `Model/ArrJnp.lean` on their own (see below)
 
 expr (prefix; shapes / sizes / positions are comma-separated ints, `-` = empty):
-  EW <n> <scalar tree>×n              elementwise leaf (shape taken from the input)
-  CAT <shape> <axis> <sizes> <k> expr×k   Concatenate (axis already normalised by the harness? NO: raw axis, may be negative)
-  STK <shape> <axis> <childshape> <k> expr×k   Stack (raw axis, may be negative; normalised against rank+1... see below)
+  EW <n> <scalar tree>×n              elementwise leaf
+  CAT <shape> <axis> <sizes> <k> expr×k   Concatenate (raw axis, may be negative)
+  STK <shape> <axis> <childshape> <k> expr×k   Stack (raw axis, may be negative)
   PAR <shape> <sub> <pos> expr        Partial with idxs resolved to flat positions
   RSH <shape> <inner> expr            Reshape
   EMB <w> <b> expr                    EmbedCondition with net c = tanh(w·c+b)
   CH <k> expr×k | INV expr            generated Chain / Invert over arrays
+Every node gets its declared shape top-down (root: the op's `<shape>`; children of CAT: the shape with the child's size
+on the axis; of STK: `<childshape>`; of PAR: `<sub>`; of RSH: `<inner>`).
 -/
 namespace Drv
 open Gen ArrComb
@@ -21,50 +31,110 @@ abbrev AB := Bij (Arr Float) Float Float
 
 private def parseShape (s : String) : Except String (List Nat) := parseNats s
 
+/-- a parsed node: its methods, its declared shape and cond_shape (`some []` = conditional on a scalar) -/
+structure ANode where
+  bij : AB
+  shape : List Nat
+  cond : Option (List Nat)
+
+def ANode.sb (n : ANode) : SBij (Arr Float) Float Float := SBij.ofBij n.bij n.shape n.cond
+
+private def anyCond (ns : List ANode) : Option (List Nat) := if ns.any (fun n => n.cond.isSome) then some [] else none
+
+/-- scalar condition ↔ 0-d array condition (for the generated `Reshape`, which reshapes its condition) -/
+private def liftCond (n : ANode) : SBij (Arr Float) (Arr Float) Float :=
+  { fwd := fun x c => n.bij.fwd x (c.data.headD 0), inv := fun y c => n.bij.inv y (c.data.headD 0),
+    fwdLd := fun x c => n.bij.fwdLd x (c.data.headD 0), invLd := fun y c => n.bij.invLd y (c.data.headD 0),
+    shape := n.shape, cond_shape := n.cond }
+private def lowerCond (b : Bij (Arr Float) (Arr Float) Float) : AB :=
+  ⟨fun x c => b.fwd x ⟨[], [c]⟩, fun y c => b.inv y ⟨[], [c]⟩, fun x c => b.fwdLd x ⟨[], [c]⟩, fun y c => b.invLd y ⟨[], [c]⟩⟩
+
+private def showErr (e : PyShape.Err) : String := e.name
+
 mutual
-partial def parseATree : List String → Except String (AB × List String)
+partial def parseATree (gen : Bool) (shape : List Nat) : List String → Except String (ANode × List String)
   | "EW" :: n :: r => do
-      let (bs, r) ← parseScalars (← parseNat n) r []
-      pure (ArrComb.elementwise bs, r)
-  | "CAT" :: shape :: axis :: sizes :: k :: r => do
-      let shape ← parseShape shape
+      let (bs, r') ← parseScalars (← parseNat n) r []
+      let used := r.take (r.length - r'.length)
+      pure (⟨ArrComb.elementwise bs, shape, if used.contains "AC" then some [] else none⟩, r')
+  | "CAT" :: cshape :: axis :: sizes :: k :: r => do
+      let cshape ← parseShape cshape
       let axis ← parseInt axis
-      let some ax := Arr.normAxis shape.length axis | .error "axis out of range"
-      let (bs, r) ← parseATrees (← parseNat k) r []
-      pure (ArrComb.concatenate ⟨shape, ax, ← parseNats sizes⟩ bs, r)
-  | "STK" :: shape :: axis :: childShape :: k :: r => do
-      let shape ← parseShape shape
+      let sizes ← parseNats sizes
+      let some ax := Arr.normAxis cshape.length axis | .error "axis out of range"
+      let (ns, r) ← parseATrees gen (sizes.map (fun n => cshape.set ax n)) (← parseNat k) r []
+      if gen then
+        let kids := ns.map ANode.sb
+        match ArgCheck.concatenateCtor (ns.map (·.shape)) (ns.map (·.cond)) axis with
+        | .error e => .error s!"ctor Concatenate rejected by the C13 model: {showErr e}"
+        | .ok (sh, c) =>
+          let g := Concatenate.init kids axis
+          if g.shape ≠ sh ∨ g.cond_shape ≠ c then .error s!"ctor Concatenate: generated {g.shape} vs C13 {sh}"
+          else pure (⟨g.toBij, g.shape, g.cond_shape⟩, r)
+      else pure (⟨ArrComb.concatenate ⟨cshape, ax, sizes⟩ (ns.map (·.bij)), cshape, anyCond ns⟩, r)
+  | "STK" :: sshape :: axis :: childShape :: k :: r => do
+      let sshape ← parseShape sshape
       let axis ← parseInt axis
-      let some ax := Arr.normAxis shape.length axis | .error "axis out of range"
+      let some ax := Arr.normAxis sshape.length axis | .error "axis out of range"
       let k ← parseNat k
-      let (bs, r) ← parseATrees k r []
-      pure (ArrComb.stack ⟨shape, ax, List.replicate k 1⟩ (← parseShape childShape) bs, r)
-  | "PAR" :: shape :: sub :: pos :: r => do
-      let (b, r) ← parseATree r
-      pure (ArrComb.partialB (← parseShape shape) (← parseShape sub) (← parseNats pos) b, r)
-  | "RSH" :: shape :: inner :: r => do
-      let (b, r) ← parseATree r
-      pure (ArrComb.reshape (← parseShape shape) (← parseShape inner) b, r)
+      let childShape ← parseShape childShape
+      let (ns, r) ← parseATrees gen (List.replicate k childShape) k r []
+      if gen then
+        let kids := ns.map ANode.sb
+        match ArgCheck.stackCtor (ns.map (·.shape)) (ns.map (·.cond)) axis with
+        | .error e => .error s!"ctor Stack rejected by the C13 model: {showErr e}"
+        | .ok (sh, c) =>
+          let g := Stack.init kids axis
+          if g.shape ≠ sh ∨ g.cond_shape ≠ c then .error s!"ctor Stack: generated {g.shape} vs C13 {sh}"
+          else pure (⟨g.toBij, g.shape, g.cond_shape⟩, r)
+      else pure (⟨ArrComb.stack ⟨sshape, ax, List.replicate k 1⟩ childShape (ns.map (·.bij)), sshape, anyCond ns⟩, r)
+  | "PAR" :: pshape :: sub :: pos :: r => do
+      let pshape ← parseShape pshape
+      let sub ← parseShape sub
+      let pos ← parseNats pos
+      let (n, r) ← parseATree gen sub r
+      if gen then
+        let g : Partial Float Float Float := ⟨n.sb, ⟨sub, pos⟩, pshape⟩
+        pure (⟨g.toBij, g.shape, g.cond_shape_prop⟩, r)
+      else pure (⟨ArrComb.partialB pshape sub pos n.bij, pshape, n.cond⟩, r)
+  | "RSH" :: rshape :: inner :: r => do
+      let rshape ← parseShape rshape
+      let inner ← parseShape inner
+      let (n, r) ← parseATree gen inner r
+      if gen then
+        match ArgCheck.reshapeCtor n.shape n.cond (some rshape) none with
+        | .error e => .error s!"ctor Reshape rejected by the C13 model: {showErr e}"
+        | .ok (sh, c) =>
+          let g := Reshape.init (liftCond n) (some rshape) none
+          if g.shape ≠ sh ∨ g.cond_shape ≠ c then .error s!"ctor Reshape: generated {g.shape} vs C13 {sh}"
+          else pure (⟨lowerCond g.toBij, g.shape, g.cond_shape⟩, r)
+      else pure (⟨ArrComb.reshape rshape inner n.bij, rshape, n.cond⟩, r)
   | "EMB" :: w :: b0 :: r => do
       let w ← parseF w
       let b0 ← parseF b0
-      let (b, r) ← parseATree r
-      pure (ArrComb.embed (fun c => Float.tanh (w * c + b0)) b, r)
+      let (n, r) ← parseATree gen shape r
+      if gen then
+        let g : EmbedCondition Float Float Float Float := EmbedCondition.init n.sb (fun c => Float.tanh (w * c + b0)) []
+        pure (⟨g.toBij, g.shape_prop, some g.cond_shape⟩, r)
+      else pure (⟨ArrComb.embed (fun c => Float.tanh (w * c + b0)) n.bij, n.shape, some []⟩, r)
   | "CH" :: k :: r => do
-      let (bs, r) ← parseATrees (← parseNat k) r []
-      pure ((Chain.mk bs).toBij, r)
+      let k ← parseNat k
+      let (ns, r) ← parseATrees gen (List.replicate k shape) k r []
+      pure (⟨(Chain.mk (ns.map (·.bij))).toBij, shape, anyCond ns⟩, r)
   | "INV" :: r => do
-      let (b, r) ← parseATree r
-      pure ((Invert.mk b).toBij, r)
+      let (n, r) ← parseATree gen shape r
+      pure (⟨(Invert.mk n.bij).toBij, n.shape, n.cond⟩, r)
   | t :: _ => .error s!"bad atree token {t}"
   | [] => .error "unexpected end of atree"
 
-partial def parseATrees (k : Nat) (r : List String) (acc : List AB) : Except String (List AB × List String) :=
-  match k with
-  | 0 => pure (acc.reverse, r)
-  | k + 1 => do
-      let (b, r) ← parseATree r
-      parseATrees k r (b :: acc)
+partial def parseATrees (gen : Bool) (shapes : List (List Nat)) (k : Nat) (r : List String) (acc : List ANode) :
+    Except String (List ANode × List String) :=
+  match k, shapes with
+  | 0, _ => pure (acc.reverse, r)
+  | k + 1, sh :: shapes => do
+      let (b, r) ← parseATree gen sh r
+      parseATrees gen shapes k r (b :: acc)
+  | _ + 1, [] => .error "more children than sizes"
 
 partial def parseScalars (k : Nat) (r : List String) (acc : List SB) : Except String (List SB × List String) :=
   match k with
@@ -74,12 +144,91 @@ partial def parseScalars (k : Nat) (r : List String) (acc : List SB) : Except St
       parseScalars k r (b :: acc)
 end
 
+private def showArr (a : Arr Float) : String := s!"{showNats a.shape} {showFs a.data}"
+
+/-- generated definitions -/
 def atree : Handler
   | m :: cond :: shape :: data :: toks => do
-      let (b, rest) ← parseATree toks
+      let shape ← parseShape shape
+      let (n, rest) ← parseATree true shape toks
       if !rest.isEmpty then .error "trailing tokens"
-      let x : Arr Float := ⟨← parseShape shape, ← parseFs data⟩
-      applyM b m x (fun a => s!"{showNats a.shape} {showFs a.data}") (← parseF cond)
+      let x : Arr Float := ⟨shape, ← parseFs data⟩
+      let c ← parseF cond
+      let decl := s!"{showNats n.shape} {if n.cond.isSome then 1 else 0}"
+      match m with
+      | "t" => pure s!"{showArr (n.bij.fwd x c)} - {decl}"
+      | "i" => pure s!"{showArr (n.bij.inv x c)} - {decl}"
+      | "tl" => let r := n.bij.fwdLd x c; pure s!"{showArr r.1} {showF r.2} {decl}"
+      | "il" => let r := n.bij.invLd x c; pure s!"{showArr r.1} {showF r.2} {decl}"
+      | _ => .error "method"
   | _ => .error "bad atree op"
+
+/-- hand model -/
+def atreeh : Handler
+  | m :: cond :: shape :: data :: toks => do
+      let shape ← parseShape shape
+      let (n, rest) ← parseATree false shape toks
+      if !rest.isEmpty then .error "trailing tokens"
+      let x : Arr Float := ⟨shape, ← parseFs data⟩
+      applyM n.bij m x showArr (← parseF cond)
+  | _ => .error "bad atreeh op"
+
+/-! `jnpprim`: the primitive specs on integer-valued arrays (data travel as floats)
+  jnpprim asplit <shape> <data> <idxs> <axis>      jnp.array_split(x, idxs, axis)
+  jnpprim split  <shape> <data> <n> <axis>         jnp.split(x, n, axis)
+  jnpprim squeeze <shape> <data> <axis>
+  jnpprim concat <axis> <k> (<shape> <data>)×k     jnp.concatenate
+  jnpprim stack  <axis> <k> (<shape> <data>)×k     jnp.stack
+  jnpprim accumulate <ints>                        tuple(itertools.accumulate(ints))
+  jnpprim range <n> <i>                            range(n)[i]
+output: arrays as `<shape> <data>` joined by ` ; ` -/
+private def parseArrs : Nat → List String → Except String (List (Arr Float))
+  | 0, [] => pure []
+  | 0, _ => .error "trailing tokens"
+  | k + 1, sh :: d :: r => do
+      let a : Arr Float := ⟨← parseShape sh, ← parseFs d⟩
+      pure (a :: (← parseArrs k r))
+  | _, _ => .error "missing arrays"
+
+private def showArrs (l : List (Arr Float)) : String := " ; ".intercalate (l.map showArr)
+
+def jnpprim : Handler
+  | ["asplit", sh, d, idxs, axis] => do
+      let x : Arr Float := ⟨← parseShape sh, ← parseFs d⟩
+      let axis ← parseInt axis
+      if (Arr.normAxis x.shape.length axis).isNone then .error "axis"
+      pure (showArrs (ArrJnp.arraySplit x (← parseNats idxs) axis))
+  | ["split", sh, d, n, axis] => do
+      let x : Arr Float := ⟨← parseShape sh, ← parseFs d⟩
+      let axis ← parseInt axis
+      let n ← parseNat n
+      match Arr.normAxis x.shape.length axis with
+      | none => .error "axis"
+      | some k =>
+        if n = 0 then .error "sections" else
+        if ArrJnp.shapeGet x.shape k % n ≠ 0 then .error "division" else
+        pure (showArrs (ArrJnp.split x n axis))
+  | ["squeeze", sh, d, axis] => do
+      let x : Arr Float := ⟨← parseShape sh, ← parseFs d⟩
+      let axis ← parseInt axis
+      match Arr.normAxis x.shape.length axis with
+      | none => .error "axis"
+      | some k => if ArrJnp.shapeGet x.shape k ≠ 1 then .error "not 1" else pure (showArr (ArrJnp.squeeze x axis))
+  | "concat" :: axis :: k :: r => do
+      let ps ← parseArrs (← parseNat k) r
+      let axis ← parseInt axis
+      if ps.isEmpty ∨ (Arr.normAxis (ps.headD ⟨[], []⟩).shape.length axis).isNone then .error "guard"
+      pure (showArr (ArrJnp.concatenate ps axis))
+  | "stack" :: axis :: k :: r => do
+      let ps ← parseArrs (← parseNat k) r
+      let axis ← parseInt axis
+      if ps.isEmpty ∨ (Arr.normAxis ((ps.headD ⟨[], []⟩).shape.length + 1) axis).isNone then .error "guard"
+      pure (showArr (ArrJnp.stack ps axis))
+  | ["accumulate", l] => do pure (showNats (ArrJnp.accumulate (← parseNats l)))
+  | ["range", n, i] => do
+      let n ← parseNat n
+      let i ← parseInt i
+      if (Arr.normAxis n i).isNone then .error "IndexError" else pure (toString (ArrJnp.rangeGet n i))
+  | _ => .error "bad jnpprim op"
 
 end Drv
